@@ -239,7 +239,7 @@ def gen_names(rng, n, hostile=False):
 def layout_files(rng, nfiles, first_free, total, maxlen_sectors=None, style=None):
     """Choose (start, length) for nfiles files inside [first_free, total), no overlap.
     Returns list sorted by descending start (catalogue order)."""
-    style = style or rng.weighted([(4, 'packed'), (3, 'gaps'), (2, 'top'), (1, 'tiny')])
+    style = style or rng.weighted([(4, 'packed'), (3, 'gaps'), (2, 'top'), (1, 'tiny'), (1, 'big')])
     avail = total - first_free
     files = []
     if nfiles == 0 or avail <= 0:
@@ -251,6 +251,10 @@ def layout_files(rng, nfiles, first_free, total, maxlen_sectors=None, style=None
         left = nfiles - i
         if style == 'tiny':
             c = rng.weighted([(3, 0), (5, 1), (2, 2)])
+        elif style == 'big' and i == 0:
+            # one file longer than 64 KiB (and, where the disc allows, than 128 KiB: both high length bits)
+            room = remaining - (left - 1)
+            c = min(room, rng.choice([257, 300, 513, 600, 1000]))
         else:
             mx = max(1, min(remaining - (left - 1), maxlen_sectors or remaining))
             c = rng.weighted([(1, 0), (6, rng.randint(1, min(mx, 4))), (3, rng.randint(1, min(mx, 40))), (1, rng.randint(1, mx))])
